@@ -185,6 +185,7 @@ static FunctionSignature *parse_function_signature(Stage1Parser *p) {
     sig->param_struct_names = NULL;
     sig->return_type = TYPE_UNKNOWN;
     sig->return_struct_name = NULL;
+    sig->return_fn_sig = NULL;  /* every error path below frees sig, which follows this pointer */
     
     /* Parse parameter types */
     tok = current_token(p);
